@@ -17,6 +17,7 @@ Expected values are computed here: 12*(octave+1)+base+alter, set arithmetic, and
 implementation of the profile correlation (pbt/ref/c17_keyref.py) used as tie guard.
 """
 
+import math
 import os
 import tempfile
 from collections import Counter
@@ -64,6 +65,42 @@ def _effective_fields(arr):
     raise AssertionError("no time unit")
 
 
+def _case_input(o, spec):
+    """(effective rows spec, what is handed to the function, row order of the effective array).
+
+    For an object input (Part / PerformedPart) the rows of the result follow the object's own note array; its
+    ids tell which note a row is, and the effective array is built in that order."""
+    o.cls("columns:8-byte", bool(spec.get("wide")))
+    o.cls("columns:score-and-performance", spec.get("extra") == "mixed")
+    if spec.get("container") == "object":
+        built = G.object_input(spec)
+        if built is not None:
+            obj, eff, kind = built
+            import warnings
+
+            with warnings.catch_warnings():
+                warnings.simplefilter("ignore")
+                na = call(obj.note_array)
+            order = [int(str(x).split("n")[-1]) for x in na["id"]]
+            if sorted(order) != list(range(len(spec["rows"]))):
+                o.add("object-note-array-notes-lost-or-duplicated", input=kind, got=order)
+                order = list(range(len(spec["rows"])))
+            o.cls("input:" + kind)
+            o.cls("input:object")
+            return eff, obj, order
+        o.cls("object-not-applicable(array given)")
+    return spec, None, None
+
+
+def _arg(given, arr):
+    return arr.copy() if given is None else given
+
+
+def _unchanged(o, fn, before, after):
+    if before.dtype != after.dtype or before.tobytes() != after.tobytes():
+        o.add("input-array-modified", function=fn)
+
+
 def _shape_classes(o, spec, arr):
     of, df = _effective_fields(arr)
     on = arr[of].tolist()
@@ -101,8 +138,10 @@ def strat_spelling(tier):
         {
             "notes": G.rows_spec(tier, 21, 108, zero="some", sizes=[3, 8, 12, 16, 24, 40, 60, 300, 300]),
             "perm": st.lists(st.integers(0, 7), min_size=0, max_size=G.max_rows(tier)),
+            "method": st.booleans(),
+            "window": st.sampled_from([None, None, [10, 40], [1, 1], [3, 5], [20, 80], [40, 10]]),
         }
-    ).map(lambda d: dict(d["notes"], perm=d["perm"]))
+    ).map(lambda d: dict(d["notes"], perm=d["perm"], method=d["method"], window=d["window"]))
 
 
 def _check_spelling_rows(o, res, pitches, label):
@@ -133,17 +172,29 @@ def _check_spelling_rows(o, res, pitches, label):
 
 def oracle_spelling(spec):
     o = Outcome(nontrivial=_nontrivial(spec))
-    arr = G.build_array(spec)
+    spec, given, order = _case_input(o, spec)
+    arr = G.build_array(spec, order=order)
     n = len(arr)
     _shape_classes(o, spec, arr)
     pitches = arr["pitch"].tolist()
-    res = call(MA.estimate_spelling, arr.copy())
+    # documented arguments: the method (only ps13s1) and the window sizes of the algorithm as keyword arguments
+    kw = {}
+    if spec.get("method"):
+        kw["method"] = "ps13s1"
+        o.cls("method-given")
+    if spec.get("window"):
+        kw["K_pre"], kw["K_post"] = spec["window"]
+        o.cls("window-sizes-given")
+    handed = _arg(given, arr)
+    res = call(MA.estimate_spelling, handed, **kw)
+    if given is None:
+        _unchanged(o, "estimate_spelling", arr, handed)
     sp = _check_spelling_rows(o, res, pitches, "given-order")
     perm = G.permutation(spec.get("perm", []), n)
     moved = perm != list(range(n))
     o.cls("permutation-moves-rows", moved)
     arr2 = arr[np.asarray(perm, dtype=int)]
-    res2 = call(MA.estimate_spelling, arr2.copy())
+    res2 = call(MA.estimate_spelling, arr2.copy(), **kw)
     sp2 = _check_spelling_rows(o, res2, arr2["pitch"].tolist(), "permuted")
     if sp is not None and sp2 is not None:
         of, _ = _effective_fields(arr)
@@ -220,7 +271,8 @@ def known_voices_zero_at_last_onset(spec, d):
 
 def oracle_voices(spec):
     o = Outcome(nontrivial=_nontrivial(spec))
-    arr = G.build_array(spec)
+    spec, given, order = _case_input(o, spec)
+    arr = G.build_array(spec, order=order)
     n = len(arr)
     _shape_classes(o, spec, arr)
     of, df = _effective_fields(arr)
@@ -230,9 +282,20 @@ def oracle_voices(spec):
     for i in range(n):
         groups.setdefault((on[i], du[i]), []).append(i)
     o.cls("rows-with-equal-onset-and-duration", any(len(g) > 1 for g in groups.values()))
-    for mono in (True, False):
+    # None: monophonic_voices left out (the signature's default is True, the docstring says False: only the
+    # claims common to both modes are judged then)
+    for mono in (True, False, None) if n % 3 == 0 else (True, False):
         try:
-            v = call(MA.estimate_voices, arr.copy(), mono)
+            handed = _arg(given, arr)
+            if mono is None:
+                o.cls("mode-omitted")
+                v = call(MA.estimate_voices, handed)
+            elif spec["rows"] and len(spec["rows"]) % 2:
+                v = call(MA.estimate_voices, handed, monophonic_voices=mono)
+            else:
+                v = call(MA.estimate_voices, handed, mono)
+            if given is None:
+                _unchanged(o, "estimate_voices", arr, handed)
         except SutRaised as e:
             o.add(e.kind, text=e.text, monophonic_voices=mono)
             o.cls("sut-raised")
@@ -247,7 +310,7 @@ def oracle_voices(spec):
         if sorted(set(vals)) != list(range(1, max(vals) + 1)):
             o.add("voices-numbering-has-gaps", monophonic_voices=mono, used=sorted(set(vals)))
         o.cls("several-voices", max(vals) > 1)
-        if not mono:
+        if mono is False:
             for key in sorted(groups):
                 g = groups[key]
                 if len(set(vals[i] for i in g)) > 1:
@@ -285,14 +348,22 @@ def strat_key(tier):
             "semitones": st.integers(1, 11),
             "pow2": st.sampled_from([-6, -3, -2, -1, 1, 2, 3, 5]),
             "factor": st.one_of(st.sampled_from([3.0, 1.5, 0.1, 10.0, 0.75]), st.floats(0.0625, 20.0, width=32)),
+            "method": st.booleans(),
         }
     ).map(lambda d: dict(d["notes"], **{k: v for k, v in d.items() if k != "notes"}))
 
 
-def _estimate_key(arr, option):
-    if option is None:
-        return call(MA.estimate_key, arr.copy())
-    return call(MA.estimate_key, arr.copy(), key_profiles=option)
+def _estimate_key(arr, option, given=None, method=False, o=None):
+    handed = _arg(given, arr)
+    kw = {}
+    if option is not None:
+        kw["key_profiles"] = option
+    if method:
+        kw["method"] = "krumhansl"
+    res = call(MA.estimate_key, handed, **kw)
+    if given is None and o is not None:
+        _unchanged(o, "estimate_key", arr, handed)
+    return res
 
 
 def _weights(arr):
@@ -320,15 +391,17 @@ def known_key_alias(spec, d):
 
 def oracle_key(spec):
     o = Outcome(nontrivial=_nontrivial(spec))
-    arr = G.build_array(spec)
+    spec, given, order = _case_input(o, spec)
+    arr = G.build_array(spec, order=order)
     _shape_classes(o, spec, arr)
     option = spec["profile"]
+    o.cls("method-given", bool(spec.get("method")))
     o.cls("profile:" + str(option))
     pset = K.PROFILE_OF_OPTION.get(option, PROFILE_ALIASES.get(option))
     pitches = arr["pitch"].tolist()
     isint = spec["unit"] in G.INT_UNITS
     try:
-        name = _estimate_key(arr, option)
+        name = _estimate_key(arr, option, given, bool(spec.get("method")), o)
     except SutRaised as e:
         o.add(e.kind, text=e.text, profile=option)
         return o
@@ -465,15 +538,45 @@ def oracle_midi(spec):
     expected = sorted((x[0], x[2]) for x in notes)
     with tempfile.TemporaryDirectory() as tmp:
         path = G.write_midi(spec, os.path.join(tmp, "c17.mid"))
+        handover = spec.get("handover", "str")
+        o.cls("file-given-as:" + handover)
+        o.cls("note-off-as-note-on-velocity-0", bool(spec.get("off_as_on0")))
+        o.cls("other-messages-between-notes", bool(spec.get("other_messages")))
+        o.cls("format-0", bool(spec.get("format0")) and G.single_track_file(spec))
+        if handover == "pathlib":
+            import pathlib
+
+            source = pathlib.Path(path)
+        elif handover == "midofile":
+            import mido
+
+            source = mido.MidiFile(path)
+        elif handover == "midofile-in-memory":
+            source = G.write_midi(spec, None, return_object=True)
+        else:
+            source = path
+        # options: a quantization unit that divides every time of the file leaves the file as it is
+        extra_kw = {}
+        q = spec.get("quantization")
+        if q is not None:
+            g = 0
+            for x in notes:
+                g = math.gcd(g, math.gcd(x[0], x[1]))
+            extra_kw["quantization_unit"] = 1 if (q == 1 or g == 0) else g
+            o.cls("quantization-unit-given")
+        if spec.get("assign_note_ids") is False:
+            extra_kw["assign_note_ids"] = False
+            o.cls("assign_note_ids-off")
         for est_voice, est_key in ((False, False), (True, False), (False, True), (True, True)):
+            kw = dict(part_voice_assign_mode=spec["mode"], estimate_voice_info=est_voice, estimate_key=est_key)
+            if spec.get("omit_defaults"):
+                # documented defaults: mode 0, no estimation
+                kw = {k: v for k, v in kw.items() if not ((k == "part_voice_assign_mode" and v == 0) or v is False)}
+                o.cls("defaults-omitted")
+                o.cls("default-omitted:mode", spec["mode"] == 0)
+            kw.update(extra_kw)
             try:
-                scr = call(
-                    load_score_midi,
-                    path,
-                    part_voice_assign_mode=spec["mode"],
-                    estimate_voice_info=est_voice,
-                    estimate_key=est_key,
-                )
+                scr = call(load_score_midi, source, **kw)
             except SutRaised as e:
                 # zero-length notes make estimate_voices fail before the key is looked at
                 o.add(e.kind, text=e.text, estimate_voice_info=est_voice, estimate_key=est_key, monophonic_voices=True)
@@ -530,22 +633,25 @@ SUBCHECKS = [
         oracle_spelling,
         strategy=strat_spelling,
         budget={"quick": 200, "thorough": 4000},
-        rule="note arrays (beat/quarter/div/sec/tick columns, 1-60 rows quick, 1-300 thorough, rows in any order, pitches 21..108, "
+        rule="input as structured array (4 or 8 byte columns; score columns alone or together with contradicting performance columns) or as Part / PerformedPart; method and window sizes given or not; the caller's array unchanged afterwards; note arrays (beat/quarter/div/sec/tick columns, 1-60 rows quick, 1-300 thorough, rows in any order, pitches 21..108, "
         "grid or float32 times, simultaneous/overlapping/zero-length notes) plus a row permutation; non-trivial = at least 8 rows with at least 3 pitch classes",
-        floors={"simultaneous-onsets": 0.2, "rows-not-in-onset-order": 0.2, "permutation-moves-rows": 0.3, "zero-length-note": 0.05, "equal-onset-and-pitch": 0.03},
+        floors={"simultaneous-onsets": 0.2, "rows-not-in-onset-order": 0.2, "permutation-moves-rows": 0.3, "zero-length-note": 0.05, "equal-onset-and-pitch": 0.03,
+                "input:object": 0.1, "input:Part": 0.03, "input:PerformedPart": 0.03, "columns:score-and-performance": 0.08, "columns:8-byte": 0.1,
+                "window-sizes-given": 0.3, "method-given": 0.2},
     ),
     SubCheck(
         "voices",
         oracle_voices,
         strategy=strat_voices,
         budget={"quick": 100, "thorough": 1000},
-        rule="note arrays as above with pitches 0..127, both values of monophonic_voices; non-trivial = at least 8 rows with at least 3 pitch classes",
+        rule="note arrays / objects as above with pitches 0..127, both values of monophonic_voices (positional or keyword) and the argument left out; non-trivial = at least 8 rows with at least 3 pitch classes",
         known={
             "voices-lone-zero-length-note": known_voices_lone_zero,
             "voices-zero-length-notes-cycle": known_voices_grace_cycle,
             "voices-zero-length-note-at-last-onset": known_voices_zero_at_last_onset,
         },
-        floors={"zero-length-note": 0.05, "rows-with-equal-onset-and-duration": 0.1, "overlapping-notes": 0.2, "several-voices": 0.2},
+        floors={"zero-length-note": 0.05, "rows-with-equal-onset-and-duration": 0.1, "overlapping-notes": 0.2, "several-voices": 0.2,
+                "input:object": 0.1, "mode-omitted": 0.15, "columns:score-and-performance": 0.05},
     ),
     SubCheck(
         "key",
@@ -555,7 +661,8 @@ SUBCHECKS = [
         rule="note arrays as above (pitches 21..108) x key-profile option x octave shift x semitone transposition x duration factors; "
         "non-trivial = at least 8 rows with at least 3 pitch classes",
         known={"key-profile-alias-rejected": known_key_alias},
-        floors={"transposition-judged": 0.5, "scaling-judged": 0.5, "profile:temperley": 0.05, "profile:kostka_payne": 0.05},
+        floors={"transposition-judged": 0.5, "scaling-judged": 0.5, "profile:temperley": 0.05, "profile:kostka_payne": 0.05,
+                "input:object": 0.1, "columns:score-and-performance": 0.08, "method-given": 0.2},
     ),
     SubCheck(
         "midi_import",
@@ -563,7 +670,7 @@ SUBCHECKS = [
         strategy=strat_midi,
         budget={"quick": 80, "thorough": 1000},
         rule="type-1 MIDI files written with mido from 1-24 (thorough 1-80) grid-aligned notes on 1-3 tracks and 1-3 channels, optional "
-        "time/key signature and tempo, all six part/voice modes, each loaded with estimate_voice_info x estimate_key in {off,on}; "
+        "time/key signature and tempo, notes ended by note_off or by note_on with velocity 0, other channel/meta messages with their own delta times between the notes, format 0 or 1, handed over as str, pathlib.Path or mido.MidiFile (read or built in memory), with/without quantization_unit (a divisor of all times) and assign_note_ids=False, defaults omitted; all six part/voice modes, each loaded with estimate_voice_info x estimate_key in {off,on}; "
         "non-trivial = at least 8 notes with at least 3 pitch classes",
         known={
             "import-estimate-key-unpack": known_import_key_unpack,
@@ -572,6 +679,8 @@ SUBCHECKS = [
             "voices-zero-length-notes-cycle": _known_voices_in_import(known_voices_grace_cycle),
             "voices-zero-length-note-at-last-onset": _known_voices_in_import(known_voices_zero_at_last_onset),
         },
-        floors={"zero-length-note": 0.05, "several-tracks": 0.1},
+        floors={"zero-length-note": 0.05, "several-tracks": 0.1, "note-off-as-note-on-velocity-0": 0.2, "other-messages-between-notes": 0.15,
+                "format-0": 0.08, "file-given-as:midofile": 0.04, "file-given-as:midofile-in-memory": 0.05, "file-given-as:pathlib": 0.05,
+                "quantization-unit-given": 0.25, "assign_note_ids-off": 0.15, "defaults-omitted": 0.25},
     ),
 ]
